@@ -361,6 +361,319 @@ theorem removeValue_rep (p : PList) (xs fs : List Nat) (s : LState) (h : Rep p x
     · simp only [ne_eq, c, not_false_eq_true, if_true, LState.remove, hn, ha]
     · rw [← ha]; exact e2
 
+/-! ### `insert(position, *this)` -/
+
+theorem insert_val_frame (p : PList) (pos : Nat) (v : Int) (p' : PList) (item : Nat)
+    (h : insert p pos v = some (p', item)) : ∀ x, x ≠ item → p'.val x = p.val x := by
+  intro x hx
+  unfold insert at h
+  by_cases c : p.free.isNone
+  · simp only [c, if_true] at h
+    have hf : (refill p).free = some (4 * p.nblocks + 4) := rfl
+    simp only [hf, Option.some.injEq, Prod.mk.injEq] at h
+    rw [← h.1]
+    show set (refill p).val _ v x = p.val x
+    rw [set_ne _ _ _ _ (by rw [h.2]; exact hx)]; rfl
+  · simp only [c, if_false, Bool.false_eq_true] at h
+    cases hf : p.free with
+    | none => simp [hf] at c
+    | some f =>
+      simp only [hf, Option.some.injEq, Prod.mk.injEq] at h
+      rw [← h.1]
+      show set p.val _ v x = p.val x
+      rw [set_ne _ _ _ _ (by rw [h.2]; exact hx)]
+
+theorem rep_next_mid (p : PList) (L Rr fs : List Nat) (cur : Nat) (s : LState) (h : Rep p (L ++ cur :: Rr) fs s) :
+    p.next cur = some (Rr.headD 0) := by
+  have := h.seg
+  rw [seg_append] at this
+  exact this.2.2.2.1
+
+/-- one `insert(pos, v)` of the loop: the chain is `a ++ cs ++ b`, `pos` designates the head of `b` -/
+theorem insert_mid (p : PList) (a cs b fs : List Nat) (s : LState) (h : Rep p (a ++ cs ++ b) fs s) (v : Int) :
+    ∃ p' item fs', insert p (b.headD 0) v = some (p', item) ∧
+      Rep p' (a ++ (cs ++ [item]) ++ b) fs' (s.insertRaw (a.length + cs.length) v).1 ∧
+      (∀ x, x ≠ item → p'.val x = p.val x) ∧ item ∉ a ++ cs ++ b := by
+  have ht : (a ++ cs ++ b).take (a.length + cs.length) = a ++ cs := by
+    rw [← List.length_append]; exact List.take_left
+  have hd : (a ++ cs ++ b).drop (a.length + cs.length) = b := by
+    rw [← List.length_append]; exact List.drop_left
+  obtain ⟨p', item, fs', e1, e2, _⟩ := insert_rep p (a ++ cs ++ b) fs s h (a.length + cs.length) (by simp) v
+  rw [ht, hd] at e2
+  rw [hd] at e1
+  refine ⟨p', item, fs', e1, by simpa using e2, insert_val_frame p _ v p' item e1, ?_⟩
+  have nd := (List.nodup_append.1 e2.nd).1
+  intro hm
+  have hperm : (a ++ cs ++ item :: b).Perm (item :: (a ++ cs ++ b)) := by
+    simpa using (List.perm_middle (a := item) (l₁ := a ++ cs) (l₂ := b))
+  have := (hperm.nodup_iff.1 nd)
+  exact (List.nodup_cons.1 this).1 hm
+
+theorem insertMany_cons_fst (s : LState) (k : Nat) (v : Int) (vs : List Int) :
+    (s.insertMany k (v :: vs)).1 = ((s.insertRaw k v).1.insertMany (k + 1) vs).1 := by
+  simp [LState.insertMany]
+
+/-- the walk has reached the item `cur` of the part `b` behind `pos` -/
+theorem selfLoop_b (V : Nat → Int) (a : List Nat) : ∀ (b2 b1 : List Nat) (cur : Nat) (cs fs : List Nat) (p : PList)
+    (s : LState) (fuel : Nat),
+    Rep p (a ++ cs ++ (b1 ++ cur :: b2)) fs s → cs ≠ [] → (∀ x ∈ b2, p.val x = V x) → b2.length < fuel →
+    ∃ p' cs' fs', insertSelfLoop ((b1 ++ cur :: b2).headD 0) (cs.headD 0) ((cur :: b2).getLast (by simp)) fuel p cur = some p' ∧
+      Rep p' (a ++ (cs ++ cs') ++ (b1 ++ cur :: b2)) fs' (s.insertMany (a.length + cs.length) (b2.map V)).1 := by
+  intro b2
+  induction b2 with
+  | nil =>
+    intro b1 cur cs fs p s fuel h _ _ hf
+    cases fuel with
+    | zero => omega
+    | succ fuel => exact ⟨p, [], fs, by simp [insertSelfLoop], by simpa [LState.insertMany] using h⟩
+  | cons y b2 ih =>
+    intro b1 cur cs fs p s fuel h hcs hV hf
+    cases fuel with
+    | zero => omega
+    | succ fuel =>
+      have nd : (a ++ cs ++ (b1 ++ cur :: y :: b2)).Nodup := (List.nodup_append.1 h.nd).1
+      have nd_b : (b1 ++ cur :: y :: b2).Nodup := (List.nodup_append.1 nd).2.1
+      have nd_c : (cur :: y :: b2).Nodup := (List.nodup_append.1 nd_b).2.1
+      have cur_ne_last : cur ≠ (cur :: y :: b2).getLast (by simp) := by
+        intro e
+        have hm : (cur :: y :: b2).getLast (by simp) ∈ y :: b2 := by
+          rw [List.getLast_cons (by simp)]; exact List.getLast_mem _
+        rw [← e] at hm
+        exact (List.nodup_cons.1 nd_c).1 hm
+      have hnext : p.next cur = some y := by
+        have := rep_next_mid p (a ++ cs ++ b1) (y :: b2) fs cur s (by simpa using h)
+        simpa using this
+      have y_ne_res : y ≠ cs.headD 0 := by
+        intro e
+        cases cs with
+        | nil => exact hcs rfl
+        | cons c cs' =>
+          simp only [List.headD_cons] at e
+          have : c ∈ a ++ c :: cs' := by simp
+          exact (List.nodup_append.1 nd).2.2 c this y (by simp) e.symm
+      obtain ⟨p1, item, fs1, e1, e2, e3, e4⟩ := insert_mid p a cs (b1 ++ cur :: y :: b2) fs s h (V y)
+      have hvy : p.val y = V y := hV y (by simp)
+      have hV' : ∀ x ∈ b2, p1.val x = V x := by
+        intro x hx
+        have x_ne : x ≠ item := by
+          intro e; apply e4; rw [← e]; simp [hx]
+        rw [e3 x x_ne]; exact hV x (by simp [hx])
+      have h' : Rep p1 (a ++ (cs ++ [item]) ++ ((b1 ++ [cur]) ++ y :: b2)) fs1 (s.insertRaw (a.length + cs.length) (V y)).1 := by
+        simpa using e2
+      obtain ⟨p', cs', fs', f1, f2⟩ := ih (b1 ++ [cur]) y (cs ++ [item]) fs1 p1 _ fuel h' (by simp) hV' (by simpa using hf)
+      refine ⟨p', item :: cs', fs', ?_, ?_⟩
+      · rw [insertSelfLoop]
+        simp only [cur_ne_last, if_false, hnext, y_ne_res, hvy, e1]
+        have hh : ((b1 ++ [cur]) ++ y :: b2).headD 0 = (b1 ++ cur :: y :: b2).headD 0 := by simp
+        have hr : (cs ++ [item]).headD 0 = cs.headD 0 := by
+          cases cs with
+          | nil => exact absurd rfl hcs
+          | cons c cs' => rfl
+        have hl : (y :: b2).getLast (by simp) = (cur :: y :: b2).getLast (by simp) :=
+          (List.getLast_cons (a := cur) (by simp : y :: b2 ≠ [])).symm
+        rw [hh, hr, hl] at f1
+        exact f1
+      · rw [List.map_cons, insertMany_cons_fst]
+        simpa [Nat.add_assoc] using f2
+
+/-- the walk is at the item `cur` of the part `a` in front of `pos` -/
+theorem selfLoop_a (V : Nat → Int) (b : List Nat) : ∀ (a2 a1 : List Nat) (cur : Nat) (cs fs : List Nat) (p : PList)
+    (s : LState) (fuel : Nat),
+    Rep p ((a1 ++ cur :: a2) ++ cs ++ b) fs s → cs ≠ [] → (∀ x ∈ a2 ++ b, p.val x = V x) → (a2 ++ b).length < fuel →
+    ∃ p' cs' fs', insertSelfLoop (b.headD 0) (cs.headD 0) ((cur :: (a2 ++ b)).getLast (by simp)) fuel p cur = some p' ∧
+      Rep p' ((a1 ++ cur :: a2) ++ (cs ++ cs') ++ b) fs'
+        (s.insertMany ((a1 ++ cur :: a2).length + cs.length) ((a2 ++ b).map V)).1 := by
+  intro a2
+  induction a2 with
+  | nil =>
+    intro a1 cur cs fs p s fuel h hcs hV hf
+    cases b with
+    | nil =>
+      cases fuel with
+      | zero => omega
+      | succ fuel => exact ⟨p, [], fs, by simp [insertSelfLoop], by simpa [LState.insertMany] using h⟩
+    | cons y b' =>
+      cases fuel with
+      | zero => omega
+      | succ fuel =>
+        have nd : ((a1 ++ [cur]) ++ cs ++ (y :: b')).Nodup := (List.nodup_append.1 h.nd).1
+        have cur_ne_last : cur ≠ (cur :: ([] ++ y :: b')).getLast (by simp) := by
+          intro e
+          have hm : (cur :: ([] ++ y :: b')).getLast (by simp) ∈ y :: b' := by
+            simp only [List.nil_append]
+            rw [List.getLast_cons (by simp)]; exact List.getLast_mem _
+          rw [← e] at hm
+          have : cur ∈ a1 ++ [cur] ++ cs := by simp
+          exact (List.nodup_append.1 nd).2.2 cur this cur hm rfl
+        have hnext : p.next cur = some (cs.headD 0) := by
+          have := rep_next_mid p a1 (cs ++ y :: b') fs cur s (by simpa using h)
+          rw [this]
+          cases cs with
+          | nil => exact absurd rfl hcs
+          | cons c cs' => rfl
+        obtain ⟨p1, item, fs1, e1, e2, e3, e4⟩ := insert_mid p (a1 ++ [cur]) cs (y :: b') fs s h (V y)
+        simp only [List.headD_cons] at e1
+        have hvy : p.val y = V y := hV y (by simp)
+        have hV' : ∀ x ∈ b', p1.val x = V x := by
+          intro x hx
+          have x_ne : x ≠ item := by
+            intro e; apply e4; rw [← e]; simp [hx]
+          rw [e3 x x_ne]; exact hV x (by simp [hx])
+        have h' : Rep p1 ((a1 ++ [cur]) ++ (cs ++ [item]) ++ ([] ++ y :: b')) fs1
+            (s.insertRaw ((a1 ++ [cur]).length + cs.length) (V y)).1 := by simpa using e2
+        obtain ⟨p', cs', fs', f1, f2⟩ := selfLoop_b V (a1 ++ [cur]) b' [] y (cs ++ [item]) fs1 p1 _ fuel h' (by simp) hV'
+          (by simpa using hf)
+        refine ⟨p', item :: cs', fs', ?_, ?_⟩
+        · rw [insertSelfLoop]
+          simp only [cur_ne_last, if_false, hnext, if_true, List.headD_cons, hvy, e1]
+          have hr : (cs ++ [item]).headD 0 = cs.headD 0 := by
+            cases cs with
+            | nil => exact absurd rfl hcs
+            | cons c cs' => rfl
+          have hl : (y :: b').getLast (by simp) = (cur :: ([] ++ y :: b')).getLast (by simp) :=
+            (List.getLast_cons (a := cur) (by simp : y :: b' ≠ [])).symm
+          rw [hr, hl] at f1
+          simpa using f1
+        · simp only [List.nil_append, List.map_cons]
+          rw [insertMany_cons_fst]
+          simpa [Nat.add_assoc] using f2
+  | cons z a2 ih =>
+    intro a1 cur cs fs p s fuel h hcs hV hf
+    cases fuel with
+    | zero => omega
+    | succ fuel =>
+      have nd : ((a1 ++ cur :: z :: a2) ++ cs ++ b).Nodup := (List.nodup_append.1 h.nd).1
+      have nd_a : (a1 ++ cur :: z :: a2).Nodup := (List.nodup_append.1 (List.nodup_append.1 nd).1).1
+      have nd_all : (cur :: (z :: a2 ++ b)).Nodup := by
+        have h1 : (a1 ++ (cur :: z :: a2) ++ cs ++ b).Nodup := by simpa using nd
+        have hsub : (cur :: (z :: a2 ++ b)).Sublist (a1 ++ (cur :: z :: a2) ++ cs ++ b) := by
+          have s1 : (cur :: z :: a2).Sublist (a1 ++ (cur :: z :: a2) ++ cs) :=
+            (List.sublist_append_right a1 _).trans (List.sublist_append_left _ cs)
+          simpa using s1.append (List.Sublist.refl b)
+        exact hsub.nodup h1
+      have cur_ne_last : cur ≠ (cur :: (z :: a2 ++ b)).getLast (by simp) := by
+        intro e
+        have hm : (cur :: (z :: a2 ++ b)).getLast (by simp) ∈ z :: a2 ++ b := by
+          rw [List.getLast_cons (by simp)]; exact List.getLast_mem _
+        rw [← e] at hm
+        exact (List.nodup_cons.1 nd_all).1 hm
+      have hnext : p.next cur = some z := by
+        have := rep_next_mid p a1 (z :: a2 ++ cs ++ b) fs cur s (by simpa using h)
+        simpa using this
+      have z_ne_res : z ≠ cs.headD 0 := by
+        intro e
+        cases cs with
+        | nil => exact hcs rfl
+        | cons c cs' =>
+          simp only [List.headD_cons] at e
+          have hz : z ∈ a1 ++ cur :: z :: a2 := by simp
+          exact (List.nodup_append.1 (List.nodup_append.1 nd).1).2.2 z hz c (by simp) e
+      obtain ⟨p1, item, fs1, e1, e2, e3, e4⟩ := insert_mid p (a1 ++ cur :: z :: a2) cs b fs s h (V z)
+      have hvz : p.val z = V z := hV z (by simp)
+      have hV' : ∀ x ∈ a2 ++ b, p1.val x = V x := by
+        intro x hx
+        have x_ne : x ≠ item := by
+          intro e; apply e4; rw [← e]
+          simp only [List.mem_append, List.mem_cons] at hx ⊢
+          rcases hx with hx | hx
+          · exact Or.inl (Or.inl (Or.inr (Or.inr (Or.inr hx))))
+          · exact Or.inr hx
+        rw [e3 x x_ne]; exact hV x (by simp only [List.cons_append, List.mem_cons]; exact Or.inr hx)
+      have h' : Rep p1 (((a1 ++ [cur]) ++ z :: a2) ++ (cs ++ [item]) ++ b) fs1
+          (s.insertRaw ((a1 ++ cur :: z :: a2).length + cs.length) (V z)).1 := by simpa using e2
+      obtain ⟨p', cs', fs', f1, f2⟩ := ih (a1 ++ [cur]) z (cs ++ [item]) fs1 p1 _ fuel h' (by simp) hV' (by simpa using hf)
+      refine ⟨p', item :: cs', fs', ?_, ?_⟩
+      · rw [insertSelfLoop]
+        simp only [cur_ne_last, if_false, hnext, z_ne_res, hvz, e1]
+        have hr : (cs ++ [item]).headD 0 = cs.headD 0 := by
+          cases cs with
+          | nil => exact absurd rfl hcs
+          | cons c cs' => rfl
+        have hl : (z :: (a2 ++ b)).getLast (by simp) = (cur :: (z :: a2 ++ b)).getLast (by simp) :=
+          (List.getLast_cons (a := cur) (by simp : z :: a2 ++ b ≠ [])).symm
+        rw [hr, hl] at f1
+        exact f1
+      · simp only [List.cons_append, List.map_cons]
+        rw [insertMany_cons_fst]
+        have hlen : ((a1 ++ [cur]) ++ z :: a2).length = (a1 ++ cur :: z :: a2).length := by simp
+        rw [hlen] at f2
+        simpa [Nat.add_assoc] using f2
+
+theorem lastOr_eq_getLast (xs : List Nat) (h : xs ≠ []) : ∀ pr, lastOr xs pr = some (xs.getLast h) := by
+  induction xs with
+  | nil => exact absurd rfl h
+  | cons x xs ih =>
+    intro pr
+    cases xs with
+    | nil => rfl
+    | cons y ys =>
+      simp only [lastOr]
+      rw [List.getLast_cons (by simp)]
+      exact ih (by simp) (some x)
+
+/-- `insert(position, *this)` on the heap does what `insertList pos vals` does on the chain model -/
+theorem insertSelf_rep (p : PList) (xs fs : List Nat) (s : LState) (h : Rep p xs fs s) (k : Nat) (hk : k ≤ xs.length) :
+    ∃ p' r xs' fs', insertSelf p ((xs.drop k).headD 0) = some (p', r) ∧ Rep p' xs' fs' (s.insertMany k s.vals).1 := by
+  have hv : s.vals = xs.map p.val := vals_of_view p xs s.vals (view_of_rep p xs fs s h)
+  cases xs with
+  | nil =>
+    have : p.prev 0 = none := h.endp
+    refine ⟨p, 0, [], fs, by simp [insertSelf, this], ?_⟩
+    rw [hv]; simpa [LState.insertMany] using h
+  | cons x0 xr =>
+    have hne : x0 :: xr ≠ [] := by simp
+    have hlast : p.prev 0 = some ((x0 :: xr).getLast hne) := by rw [h.endp]; exact lastOr_eq_getLast _ hne none
+    have hbeg : p.begin = x0 := by rw [h.beg]; rfl
+    have hvals : s.vals = p.val x0 :: xr.map p.val := by rw [hv]; rfl
+    have hsz : p.size + 1 = xr.length + 1 + 1 := by rw [h.sz]; rfl
+    unfold insertSelf
+    rw [hlast, hbeg, hvals, insertMany_cons_fst]
+    simp only
+    cases k with
+    | zero =>
+      have h0 : Rep p ([] ++ [] ++ (x0 :: xr)) fs s := by simpa using h
+      obtain ⟨p1, item, fs1, e1, e2, e3, e4⟩ := insert_mid p [] [] (x0 :: xr) fs s h0 (p.val x0)
+      simp only [List.headD_cons] at e1
+      have e4' : item ∉ x0 :: xr := by simpa using e4
+      have hV1 : ∀ y ∈ x0 :: xr, p1.val y = p.val y := fun y hy => e3 y (fun e => e4' (e ▸ hy))
+      have e2' : Rep p1 ([] ++ [item] ++ ([] ++ x0 :: xr)) fs1 (s.insertRaw 0 (p.val x0)).1 := by simpa using e2
+      obtain ⟨p', cs', fs', f1, f2⟩ := selfLoop_b p.val [] xr [] x0 [item] fs1 p1 _ (p.size + 1) e2' (by simp)
+        (fun y hy => hV1 y (by simp [hy])) (by rw [hsz]; omega)
+      refine ⟨p', item, _, fs', ?_, by simpa using f2⟩
+      simp only [List.drop_zero, List.nil_append, List.headD_cons] at f1 ⊢
+      rw [e1]
+      simp only [f1, Option.map_some]
+    | succ k' =>
+      have hk' : k' ≤ xr.length := by simpa using hk
+      have hlen : (xr.take k').length = k' := by simp; omega
+      have h0 : Rep p ((x0 :: xr.take k') ++ [] ++ xr.drop k') fs s := by simpa using h
+      obtain ⟨p1, item, fs1, e1, e2, e3, e4⟩ := insert_mid p (x0 :: xr.take k') [] (xr.drop k') fs s h0 (p.val x0)
+      have e4' : item ∉ x0 :: xr := by
+        intro hm; apply e4
+        simp only [List.append_nil, List.cons_append, List.mem_cons, List.mem_append] at hm ⊢
+        rcases hm with hm | hm
+        · exact Or.inl hm
+        · right; rw [← List.mem_append, List.take_append_drop]; exact hm
+      have hV1 : ∀ y ∈ x0 :: xr, p1.val y = p.val y := fun y hy => e3 y (fun e => e4' (e ▸ hy))
+      have e2' : Rep p1 (([] ++ x0 :: xr.take k') ++ [item] ++ xr.drop k') fs1 (s.insertRaw (k' + 1) (p.val x0)).1 := by
+        simpa [hlen] using e2
+      obtain ⟨p', cs', fs', f1, f2⟩ := selfLoop_a p.val (xr.drop k') (xr.take k') [] x0 [item] fs1 p1 _ (p.size + 1) e2'
+        (by simp) (fun y hy => hV1 y (by
+            simp only [List.mem_cons]; right
+            rw [← List.take_append_drop k' xr]; exact hy))
+        (by rw [hsz]; simp; omega)
+      have hmap : (xr.take k' ++ xr.drop k').map p.val = xr.map p.val := by rw [List.take_append_drop]
+      rw [hmap] at f2
+      have hlen1 : ([] ++ x0 :: xr.take k').length + [item].length = k' + 1 + 1 := by simp [hlen]
+      rw [hlen1] at f2
+      refine ⟨p', item, _, fs', ?_, f2⟩
+      simp only [List.drop_succ_cons, List.headD_cons] at f1 ⊢
+      have hl : (x0 :: (xr.take k' ++ xr.drop k')).getLast (by simp) = (x0 :: xr).getLast hne := by
+        congr 1 <;> simp
+      rw [hl] at f1
+      rw [e1]
+      simp only [f1, Option.map_some]
+
 /-- one operation of a history: the heap and the chain model accept the same operations and stay related -/
 theorem step_rep (p : PList) (xs fs : List Nat) (s : LState) (h : Rep p xs fs s) (op : POp) :
     (step p op = none ∧ stepChain s op = none) ∨
@@ -422,6 +735,17 @@ theorem step_rep (p : PList) (xs fs : List Nat) (s : LState) (h : Rep p xs fs s)
     right
     obtain ⟨p', r, xs', fs', e1, e2, e3⟩ := removeValue_rep p xs fs s h v
     exact ⟨p', r.st, xs', fs', e1, by simp [stepChain, e2], e3⟩
+  | insertSelf k =>
+    by_cases hk : k ≤ xs.length
+    · right
+      obtain ⟨p', r, xs', fs', e1, e2⟩ := insertSelf_rep p xs fs s h k hk
+      have hw := walk_seg p k xs none h.seg hk
+      rw [← h.beg] at hw
+      refine ⟨p', (s.insertMany k s.vals).1, xs', fs', ?_, ?_, e2⟩
+      · simp only [step, h.sz, hk, if_true, hw, e1, Option.map_some]
+      · simp [stepChain, LState.insertList, hsize, hk]
+    · left
+      exact ⟨by simp [step, h.sz, hk], by simp [stepChain, LState.insertList, hsize, hk]⟩
 
 theorem run_rep (ops : List POp) : ∀ (p : PList) (xs fs : List Nat) (s : LState), Rep p xs fs s →
     ∃ xs' fs', Rep (run p ops) xs' fs' (runChain s ops) := by
